@@ -250,7 +250,7 @@ def run_close_errors(params, ch):
 
 def parts(tier):
     mods()
-    sc = [{'T': T, 'D': D, 'size': z, 'kd': kd, 'select': sel} for T in (None, 0, 0.001, 0.5, 1, 2.5) for D in (None, 3) for z in (1, 24, 4096, 1024 * 1024) for kd in (False, True)
+    sc = [{'T': T, 'D': D, 'size': z, 'kd': kd, 'select': sel} for T in (None, 0, 0.001, 0.5, 1, 2.5) for D in (None, 3, 0.5, 2.75) for z in (1, 24, 513, 1000, 4096, 1024 * 1024) for kd in (False, True)
           for sel in (['serial', 'SER1'], ['port', [1, 2, 3]], ['port', '1-2.3'])]
     out = [Part('contract-grid', sc, run_contract, what='timeouts x default timeout x read sizes x kernel driver x device selection', bound='%d cases' % len(sc))]
     k = 2 if tier == 'quick' else 3
